@@ -12,7 +12,7 @@
     branch for the tree being checked (the check prints which). *)
 From Coq Require Import ZArith List Bool QArith.
 Require Import SPP.Gen.C05Header SPP.Model.C05_HeaderCodec SPP.Model.C05_RaDec.
-Require Import SPP.Proofs.C05_codec SPP.Proofs.C05_radec SPP.Proofs.C05_status.
+Require Import SPP.Proofs.C05_codec SPP.Proofs.C05_radec SPP.Proofs.C05_status SPP.Proofs.C05_chars SPP.Proofs.C05_pointing.
 Import ListNotations.
 Open Scope Z_scope.
 
@@ -75,11 +75,11 @@ Print Assumptions C05_edit_err.
     count characters a same-length edit with a multi-byte string writes a header that no longer parses. *)
 Theorem C05_edit_ok :
   if vallen_chars return Prop
-  then (forall h data k v file', wf_header h -> has_layout h = true -> header_no_cont h = true -> value_no_cont v = true ->
+  then (forall h data k v file', wf_header h -> has_layout h = true -> header_no_cont h = true -> value_no_cont v = true -> value_utf8 v = true ->
           edit_header (fmt_header h ++ data) k v = Some file' -> edit_rewrites_value h data k v file')
        /\ (exists h data k v file', wf_header h /\ has_layout h = true /\
              edit_header (fmt_header h ++ data) k v = Some file' /\ parse_header file' = None)
-  else forall h data k v file', wf_header h -> has_layout h = true ->
+  else forall h data k v file', wf_header h -> has_layout h = true -> value_utf8 v = true ->
           edit_header (fmt_header h ++ data) k v = Some file' -> edit_rewrites_value h data k v file'.
 Proof. exact edit_status. Qed.
 Print Assumptions C05_edit_ok.
@@ -90,6 +90,81 @@ Theorem C05_edit_reparse : forall h data k v file', edit_rewrites_value h data k
      parse_header file' = Some (h1 ++ (k, v') :: h2, blen (fmt_header h))).
 Proof. exact edit_reparse. Qed.
 Print Assumptions C05_edit_reparse.
+
+(** ** 2b. characters and bytes in edit_header: every byte string (multi-byte code points, control characters)
+
+    [edit_header] pads / truncates a new source name by CHARACTERS ([pad_name] follows the Python slice on code points);
+    the layout counts BYTES.  For every pair of byte strings: the padded name has the character count of the old one, *)
+Theorem C05_pad_name_chars : forall old new, py_len (pad_name old new) = py_len old.
+Proof. exact py_len_pad_name. Qed.
+Print Assumptions C05_pad_name_chars.
+
+(** is the new name itself when the character counts agree, *)
+Theorem C05_pad_name_same : forall old new, py_len new = py_len old -> pad_name old new = new.
+Proof. exact pad_name_same_chars. Qed.
+Print Assumptions C05_pad_name_same.
+
+(** is the whole new name followed by the missing blanks when it is shorter (no character is ever split), *)
+Theorem C05_pad_name_shorter : forall old new, py_len new <= py_len old ->
+  pad_name old new = new ++ repeat 32 (nchars old - nchars new).
+Proof. exact pad_name_shorter. Qed.
+Print Assumptions C05_pad_name_shorter.
+
+(** and is the byte arithmetic [value[:n] + blanks] on names without multi-byte characters. *)
+Theorem C05_pad_name_ascii : forall old new, no_cont old = true -> no_cont new = true ->
+  pad_name old new = firstn (length old) new ++ repeat 32 (length old - length new).
+Proof. exact pad_name_ascii. Qed.
+Print Assumptions C05_pad_name_ascii.
+
+(** Strings are Python str objects, i.e. well-formed UTF-8 ([wf_value] demands [valid_utf8], the strict decoder of
+    [_read_string]; every string in the codec theorems above ranges over ALL such byte strings).  The character slice and
+    the blank padding of [edit_header] never split a code point: the padded name is again well-formed UTF-8, so the header
+    it writes parses ([C05_edit_reparse]). *)
+Theorem C05_utf8_pad_name : forall old s, valid_utf8 s = true -> valid_utf8 (pad_name old s) = true.
+Proof. exact valid_pad_name. Qed.
+Print Assumptions C05_utf8_pad_name.
+
+Theorem C05_utf8_app : forall a b, valid_utf8 a = true -> valid_utf8 b = true -> valid_utf8 (a ++ b) = true.
+Proof. exact valid_utf8_app. Qed.
+Print Assumptions C05_utf8_app.
+
+(** Conversely to [C05_edit_ok]: an edit whose (padded) value is well-typed and has the ENCODED length of the value in the
+    file is accepted, and the file becomes the layout of the dictionary with that one value replaced.  Full strength
+    when lengths count bytes; in the character-counting mode only for strings without multi-byte characters. *)
+Theorem C05_edit_accepts :
+  if vallen_chars return Prop
+  then forall h1 k old h2 data v v' t,
+         wf_header (h1 ++ (k, old) :: h2) -> has_layout (h1 ++ (k, old) :: h2) = true -> lookup k header_keys = Some t ->
+         edit_value (h1 ++ (k, old) :: h2) k v = Some v' -> wf_value t v' -> length (fmt_value t v') = length (fmt_value t old) ->
+         header_no_cont (h1 ++ (k, old) :: h2) = true -> value_no_cont v' = true ->
+         edit_header (fmt_header (h1 ++ (k, old) :: h2) ++ data) k v = Some (fmt_header (h1 ++ (k, v') :: h2) ++ data)
+  else forall h1 k old h2 data v v' t,
+         wf_header (h1 ++ (k, old) :: h2) -> has_layout (h1 ++ (k, old) :: h2) = true -> lookup k header_keys = Some t ->
+         edit_value (h1 ++ (k, old) :: h2) k v = Some v' -> wf_value t v' -> length (fmt_value t v') = length (fmt_value t old) ->
+         edit_header (fmt_header (h1 ++ (k, old) :: h2) ++ data) k v = Some (fmt_header (h1 ++ (k, v') :: h2) ++ data).
+Proof. exact edit_accepts_status. Qed.
+Print Assumptions C05_edit_accepts.
+
+(** Strings: a new value with the BYTE length of the old one (for [source_name] also its character count) is written
+    over exactly the span of the old one -- [pre ++ |new| new ++ post] with the same [pre] and [post] -- whatever code
+    points (multi-byte, control) either holds. *)
+Theorem C05_edit_string_same_counts :
+  if vallen_chars return Prop
+  then forall h1 k so h2 data sn,
+         wf_header (h1 ++ (k, VStr so) :: h2) -> has_layout (h1 ++ (k, VStr so) :: h2) = true -> lookup k header_keys = Some Tstr ->
+         blen sn = blen so -> valid_utf8 sn = true -> (k = key_source_name -> py_len sn = py_len so) ->
+         header_no_cont (h1 ++ (k, VStr so) :: h2) = true -> no_cont sn = true ->
+         edit_header (fmt_header (h1 ++ (k, VStr so) :: h2) ++ data) k (VStr sn)
+         = Some ((fmt_string kw_header_start ++ fmt_entries h1 ++ fmt_string k) ++ fmt_string sn
+                 ++ (fmt_entries h2 ++ fmt_string kw_header_end ++ data))
+  else forall h1 k so h2 data sn,
+         wf_header (h1 ++ (k, VStr so) :: h2) -> has_layout (h1 ++ (k, VStr so) :: h2) = true -> lookup k header_keys = Some Tstr ->
+         blen sn = blen so -> valid_utf8 sn = true -> (k = key_source_name -> py_len sn = py_len so) ->
+         edit_header (fmt_header (h1 ++ (k, VStr so) :: h2) ++ data) k (VStr sn)
+         = Some ((fmt_string kw_header_start ++ fmt_entries h1 ++ fmt_string k) ++ fmt_string sn
+                 ++ (fmt_entries h2 ++ fmt_string kw_header_end ++ data)).
+Proof. exact edit_string_status. Qed.
+Print Assumptions C05_edit_string_same_counts.
 
 (** ** 3. RA / Dec sexagesimal packing (exact decimals, every resolution S) *)
 
@@ -153,6 +228,37 @@ Theorem C05_pointing_status :
 Proof. exact pointing_status. Qed.
 Print Assumptions C05_pointing_status.
 
+(** ** 4c. Pointing angles of any sign and size (negative, beyond a full turn, beyond the horizon): the number stored is
+    [Angle.deg], a linear injective map of the number the Angle holds (exact rationals, any positive degrees-per-radian):
+    the sign is kept, a full turn more in the Angle is exactly 360 more in the file (no wrap), [c] times the angle is [c]
+    times the number (no clip), and two different Angles never share a stored number. *)
+Theorem C05_pointing_sign : forall r a, (0 < r)%Q ->
+  ((0 < fst a -> 0 < deg_of r a) /\ (fst a < 0 -> deg_of r a < 0) /\ (fst a == 0 -> deg_of r a == 0))%Q.
+Proof. exact deg_of_sign. Qed.
+Print Assumptions C05_pointing_sign.
+
+Theorem C05_pointing_no_wrap : forall r x u, (~ r == 0 -> deg_of r (x + 360 / deg_per r u, u) == deg_of r (x, u) + 360)%Q.
+Proof. exact deg_of_turn. Qed.
+Print Assumptions C05_pointing_no_wrap.
+
+Theorem C05_pointing_linear : forall r c x y u,
+  (deg_of r (x + y, u) == deg_of r (x, u) + deg_of r (y, u) /\ deg_of r (c * x, u) == c * deg_of r (x, u))%Q.
+Proof. intros r c x y u. split; [apply deg_of_add|apply deg_of_scale]. Qed.
+Print Assumptions C05_pointing_linear.
+
+Theorem C05_pointing_injective : forall r x y u, (0 < r -> deg_of r (x, u) == deg_of r (y, u) -> x == y)%Q.
+Proof. exact deg_of_inj. Qed.
+Print Assumptions C05_pointing_injective.
+
+(** and the current source stores exactly that number under each key (whenever the generator reads "degrees, keys not
+    crossed" off [to_sigproc]; the other case is refuted in [C05_pointing_status]) *)
+Theorem C05_pointing_written :
+  if pointing_ok return Prop
+  then forall r zen az, (za_start_written r zen az == deg_of r zen /\ az_start_written r zen az == deg_of r az)%Q
+  else True.
+Proof. exact pointing_written_status. Qed.
+Print Assumptions C05_pointing_written.
+
 (** ** 5. Telescope / backend identifiers (every entry of the regenerated tables; unknown names -> default) *)
 Theorem C05_telescope_ids :
   (forall e, In e telescope_ids -> telescope_of_id (telescope_to_id (fst e)) = fst e /\ 0 <= snd e < 4294967296 /\
@@ -197,3 +303,49 @@ Example C05_example_radec :
   unpack_dec_with false false S8 (pack S8 c_south) = Some c_south /\
   repr_rejected S8 1000 = true /\ repr_rejected S8 1500 = false /\ repr_rejected S8 10000 = false.
 Proof. unfold wf_sexa, S8. cbn [sx_neg sx_deg sx_min sx_sec c_south]. repeat split; try reflexivity; try (vm_compute; congruence). Qed.
+
+(** multi-byte code points and control characters: [h_mb] holds the source name "e-acute NUL a b" (4 characters, 5 bytes)
+    and the raw data file name "U+4E2D LF" (2 characters, 4 bytes).  It is well formed, encodes with BYTE prefixes (5, 4) and
+    parses back; a 3-character new source name "u-umlaut LF c" is padded by ONE blank (4 characters, 5 bytes) and written over
+    the old one; three ASCII characters replace the 3-byte code point of the raw data file name; the same three characters
+    as source name are cut to 4 characters = 4 bytes and refused; a 5-byte name of 5 ASCII characters is cut to 4 and refused *)
+Example C05_example_multibyte :
+  wf_header h_mb /\ has_layout h_mb = true /\ header_no_cont h_mb = false /\
+  encode_header_with false false h_mb = Some (fmt_header h_mb) /\
+  parse_header (fmt_header h_mb ++ [9]) = Some (h_mb, blen (fmt_header h_mb)) /\
+  firstn 9 (skipn 31 (fmt_header h_mb)) = [5; 0; 0; 0; 195; 169; 0; 97; 98] /\
+  pad_name [195; 169; 0; 97; 98] [195; 188; 10; 99] = [195; 188; 10; 99; 32] /\
+  edit_header_with false false (fmt_header h_mb ++ [9]) key_source_name (VStr [195; 188; 10; 99])
+    = Some (fmt_header ((key_source_name, VStr [195; 188; 10; 99; 32]) :: tl h_mb) ++ [9]) /\
+  edit_header_with false false (fmt_header h_mb ++ [9]) k_rawdatafile (VStr [97; 0; 127; 9])
+    = Some (fmt_header [(key_source_name, VStr [195; 169; 0; 97; 98]); (key_nbits, VInt 8); (k_rawdatafile, VStr [97; 0; 127; 9]); (key_nchans, VInt 4)] ++ [9]) /\
+  edit_header_with false false (fmt_header h_mb ++ [9]) key_source_name (VStr [228; 184; 173; 97; 98; 99]) = None /\
+  edit_header_with false false (fmt_header h_mb ++ [9]) key_source_name (VStr [97; 98; 99; 100; 101]) = None.
+Proof.
+  destruct wf_h_mb as (W & L & N). repeat split; try assumption; try apply W; vm_compute; reflexivity.
+Qed.
+
+(** the strict decoder: first and last code point of every encoded length are accepted (U+0000, U+007F, U+0080, U+07FF,
+    U+0800, U+D7FF, U+E000, U+FFFF, U+10000, U+10FFFF); overlong forms, surrogates, code points beyond U+10FFFF, stray and
+    missing continuation bytes are rejected; and a header whose source name is Latin-1 (b"PSR" + E9) does not parse
+    (UnicodeDecodeError in the implementation) although the same header with the UTF-8 of that name does *)
+Example C05_example_utf8 :
+  valid_utf8 [0; 127; 194; 128; 223; 191; 224; 160; 128; 237; 159; 191; 238; 128; 128; 239; 191; 191;
+              240; 144; 128; 128; 244; 143; 191; 191] = true /\
+  map valid_utf8 [[192; 128]; [193; 191]; [224; 159; 191]; [237; 160; 128]; [240; 143; 191; 191]; [244; 144; 128; 128];
+                  [245; 128; 128; 128]; [128]; [228; 184]; [228; 184; 65]; [80; 83; 82; 233]; [255]]
+    = [false; false; false; false; false; false; false; false; false; false; false; false] /\
+  parse_header (fmt_string kw_header_start ++ fmt_string key_nbits ++ le32 8 ++ fmt_string key_nchans ++ le32 4
+                ++ fmt_string key_source_name ++ fmt_string [80; 83; 82; 233] ++ fmt_string kw_header_end) = None /\
+  parse_header (fmt_string kw_header_start ++ fmt_string key_nbits ++ le32 8 ++ fmt_string key_nchans ++ le32 4
+                ++ fmt_string key_source_name ++ fmt_string [80; 83; 82; 195; 169] ++ fmt_string kw_header_end)
+    = Some ([(key_nbits, VInt 8); (key_nchans, VInt 4); (key_source_name, VStr [80; 83; 82; 195; 169])], 81).
+Proof. vm_compute. repeat split; reflexivity. Qed.
+
+(** pointing angles outside the usual ranges: -0.25 h is stored as -3.75 deg, 725.5 deg as 725.5, -1/16 rad as -57/16 deg (for
+    57 degrees per radian), 43530 arcmin as 725.5 deg; storing the raw number of the Angle instead would differ *)
+Example C05_example_pointing_range :
+  (angle_written true 57 (-(1 # 4), UHour) == -(15 # 4) /\ angle_written true 57 (1451 # 2, UDeg) == 1451 # 2 /\
+   angle_written true 57 (-(1 # 16), URad) == -(57 # 16) /\ deg_of 57 (43530, UArcmin) == 1451 # 2 /\
+   ~ angle_written false 57 (-(1 # 4), UHour) == -(15 # 4))%Q.
+Proof. repeat split; try (vm_compute; reflexivity). vm_compute. discriminate. Qed.
